@@ -84,8 +84,13 @@ def library_containers():
 LIB_STATE = None
 
 
+NUMPY_ERR = None
+
+
 def snapshot_library_state():
-    global LIB_STATE
+    global LIB_STATE, NUMPY_ERR
+    import numpy as np
+    NUMPY_ERR = (dict(np.geterr()), np.geterrcall())       # the library installs its own floating-point error handling
     LIB_STATE = []
     for name, obj in library_containers():
         try:
@@ -121,6 +126,12 @@ def clear_function_caches():
 def restore_library_state():
     """puts every library-level container back to its pristine content, in place (identity preserved)"""
     clear_function_caches()
+    if NUMPY_ERR is not None:
+        import numpy as np
+        if dict(np.geterr()) != NUMPY_ERR[0]:
+            np.seterr(**NUMPY_ERR[0])
+        if np.geterrcall() is not NUMPY_ERR[1]:
+            np.seterrcall(NUMPY_ERR[1])
     for name, obj, saved in LIB_STATE:
         try:
             if obj == saved:
@@ -141,6 +152,8 @@ def restore_library_state():
 class pristine_library(object):
     """context: run something in the pristine library-level state, then put the current state back"""
     def __enter__(self):
+        import numpy as np
+        self.np_cur = (dict(np.geterr()), np.geterrcall())
         self.cur = []
         for name, obj, saved in LIB_STATE:
             try:
@@ -150,6 +163,9 @@ class pristine_library(object):
         restore_library_state()
 
     def __exit__(self, *exc):
+        import numpy as np
+        np.seterr(**self.np_cur[0])
+        np.seterrcall(self.np_cur[1])
         for obj, cur in self.cur:
             if isinstance(obj, list):
                 obj[:] = cur
@@ -167,6 +183,10 @@ def library_state_diff(canon):
     the fill level of function caches: part of a search state, so that hidden process-wide memory distinguishes states
     """
     out = []
+    if NUMPY_ERR is not None:
+        import numpy as np
+        if dict(np.geterr()) != NUMPY_ERR[0] or np.geterrcall() is not NUMPY_ERR[1]:
+            out.append(('numpy.errstate', tuple(sorted(np.geterr().items())), getattr(np.geterrcall(), '__qualname__', repr(np.geterrcall()))))
     for name, obj, saved in (LIB_STATE or []):
         try:
             same = (obj == saved)
